@@ -161,9 +161,11 @@ META["C23"] = dict(technique=_SC_TECH, note=_SC_NOTE,
          "All 442 relay histories of length 6 are played against the real client with two concurrent Sends; after the relay stabilises every Send has returned successfully at quiescence.")
 REGISTRY["C26"] = ("fn", "c26")
 HOOK_COMMITS.append("5a0d27c")
-META["C26"] = dict(technique=_FN_TECH, note="The 'accepted only from the signaled peer' clause is decided by C03's expected-peer check of the QUIC session; the WebRTC data-channel path itself cannot be exercised offline.",
+HOOK_COMMITS.append("b914269")
+META["C26"] = dict(technique=_FN_TECH, note="The ICE/DTLS negotiation that produces the data channel cannot run offline; everything after it (executeLink: QUIC/TLS with the signaled peer as the only accepted identity) runs for real over an in-memory data channel.",
     text="WebRtcSignal.tla: every signal kind encoded for a key decodes to exactly the original with that key only; other key, other context, every ciphertext region tampered / truncated / garbage => error, never another signal. "
-         "Opener.tla: for all pairs of distinct id strings (incl. prefixes) and seeded real peer ids exactly one side is the offerer (exported isOfferer).")
+         "Opener.tla: for all pairs of distinct id strings (incl. prefixes) and seeded real peer ids exactly one side is the offerer (exported isOfferer). "
+         "WebRtcLink.tla: local role (offerer listens / answerer dials) x other end authenticating as the signaled peer or another key: a link is established iff it is the signaled peer, and names it.")
 REGISTRY["C40"] = ("fn", "c40")
 HOOK_COMMITS.append("a0586f6")
 META["C40"] = dict(technique=_FN_TECH,
